@@ -1234,6 +1234,8 @@ func isAtomic(t *Term) bool {
 	switch t.Op {
 	case "var":
 		return true
+	case "int", "str", "bool":
+		return true
 	case "uf":
 		if t.Name == "be64" || t.Name == "un64" {
 			return false
